@@ -93,7 +93,8 @@ func VH_C05_SetFileInfo_sym() {
 	doComment, doRename := vBool("set_comment"), vBool("rename")
 	fields := []hotline.Field{c05Name, f(hotline.FieldFilePath, vPathField("docs"))}
 	if doComment {
-		fields = append(fields, f(hotline.FieldFileComment, []byte("hello")))
+		// every comment length 0..2: an empty comment field ("clear the comment") is a comment change too
+		fields = append(fields, hotline.Field{Type: hotline.FieldFileComment, Data: vBytesEach("comment", 2)})
 	}
 	if doRename {
 		fields = append(fields, f(hotline.FieldFileNewName, []byte("renamed.txt")))
@@ -527,4 +528,32 @@ func VH_C05_ChatSend() {
 	if allowed {
 		vAssert("chat_line_delivered_when_entitled", c05ToOthers(e, res, hotline.TranChatMsg) == 1)
 	}
+}
+
+// An account edit governs every later request of every connected session of that account, whichever session it is
+// (three sessions of the edited account, the edit made by somebody else): broadcast is executed iff the account's
+// new privileges allow it.
+func VH_C05_EditedAccountGovernsAllItsSessions() {
+	e := vNewEnv()
+	vAssume(e.has(hotline.AccessModifyUser))
+	s := []*hotline.ClientConn{vNewClient(e.srv, "bob"), vNewClient(e.srv, "bob"), vNewClient(e.srv, "bob")}
+	e.am.getResult = &hotline.Account{Login: "bob", Name: "Bob", Password: "H:old", Access: s[0].Account.Access}
+	newAccess := vBytesN("access_after_edit", 8)
+	st := hotline.NewTransaction(hotline.TranSetUser, e.cc.ID, f(hotline.FieldUserLogin, []byte{0x9d, 0x90, 0x9d}), f(hotline.FieldUserName, []byte("Bob")),
+		f(hotline.FieldUserAccess, newAccess), f(hotline.FieldUserPassword, []byte{0}))
+	HandleSetUser(e.cc, &st)
+	var want hotline.AccessBitmap
+	copy(want[:], newAccess)
+	k := vChoice("session", 3)
+	before := vSendCount()
+	t := hotline.NewTransaction(hotline.TranUserBroadcast, s[k].ID, f(hotline.FieldData, []byte("hi")))
+	res := HandleUserBroadcast(s[k], &t)
+	sent := vSendCount() > before
+	for _, r := range res {
+		if r.ClientID != s[k].ID {
+			sent = true
+		}
+	}
+	vAssert("broadcast_after_edit_requires_the_new_privilege", !sent || vBit(want, hotline.AccessBroadcast))
+	vAssert("broadcast_after_edit_not_refused_with_the_new_privilege", !vBit(want, hotline.AccessBroadcast) || !vIsDenial(res))
 }
